@@ -263,6 +263,10 @@ func c07GenLabelLengths(g *Gen) {
 			panic("c07: a fixed configuration is not accepted by the loader: " + cf.describe())
 		}
 	}
+	// minimal members: one key value of 201 bytes, valid UTF-8, whose last character lies across byte offset 200
+	for _, f := range []string{"host", "app"} {
+		c07EmitSeq(g, "label-length-minimal", wide, [][]byte{c07Sentinel(), c07KeyRecord(f, strings.Repeat("h", 199)+"ä"), c07Sentinel()})
+	}
 	type window struct{ lo, hi int }
 	emitWindow := func(class string, cf *c07Conf, field string, w window, form int, per int) {
 		var seq [][]byte
